@@ -87,7 +87,7 @@ CLAIMED = {
              "the rest are counted as not analysed; (R9.2) convert_to_xml and convert_from_xml of every simple type, Adjustment "
              "normalisation included, are evaluated to affine forms and must be reciprocal (rounding mode = quantum recorded); "
              "(R9.3) an OptionalAttribute's declared default equals the schema default whenever the schema declares one, compared "
-             "through value interpretation; (R9.4) refusals in setters and their helpers raise TypeError/ValueError. Also R9.5: presence is not decided by truthiness in value-selecting expressions unless the tested value is boolean, its falsy value equals the fall-back, or it is an object without __len__/__bool__ (unknown types are refused); R9.6: a relationship is re-used only on a path that compared the unmodified stored target with the requested one by plain equality. NOT decided: "
+             "through value interpretation; (R9.4) refusals in setters and their helpers raise TypeError/ValueError. Also R9.5: presence is not decided by truthiness in value-selecting expressions unless the tested value is boolean, its falsy value equals the fall-back, or it is an object without __len__/__bool__ (unknown types are refused); R9.6: a relationship is re-used only on a path that compared the unmodified stored target with the requested one by plain equality; R9.7: an attribute the getter compares with a constant before it answers is written by the setter. NOT decided: "
              "persistence across save/re-open, independence of sibling properties, placeholder inheritance.",
         technique="static analysis: typed delegation-chain resolution of getter/setter XML locations, affine evaluation of "
                   "conversion functions, table comparison of declared vs schema defaults",
@@ -207,8 +207,10 @@ CLAIMED = {
              "bottom=top+height, right=left+width, from_merge_origin's far corner is origin+span-1; size setters store then "
              "notify unconditionally and the chain ends in frame size = sum over all rows/columns; new_tbl adds cols grid "
              "columns, rows rows and cols cells per row with sizes that sum to the requested size (polynomial identity with the "
-             "floor division opaque); the frame is created with the same extents; no other function adds or removes rows, "
-             "cells or grid columns. NOT decided: the state reached by arbitrary merge/split sequences, text order values.",
+             "floor division opaque); the frame is created with the same extents; no function other than new_tbl and the element "
+             "classes' own structural primitives adds or removes rows, cells or grid columns; row / column indices are positions in the "
+             "row / cell lists (or child positions minus a count the schema fixes); the emptiness shortcut of the content move reads "
+             "every kind of paragraph content. NOT decided: the state reached by arbitrary merge/split sequences, text order values.",
         technique="static analysis: statement-order dominance of refusal guards, attribute-set agreement between sibling "
                   "functions, slice-to-interval decoding compared in polynomial normal form, must-call chain, loop-sum "
                   "polynomial identity, who-may-call rule",
@@ -244,7 +246,7 @@ CLAIMED = {
              "the digest of every part reachable by an image (media/video) relationship of the whole package; image and media "
              "parts are constructed nowhere else; sha1/ext/content_type/size/dpi of an Image depend (transitively, by field-read "
              "analysis) on the stored bytes only, never the file name; the bytes read are handed unchanged through from_file -> "
-             "from_blob -> __init__ -> part. Also: the part returned by get_or_add_* originates only from the package-wide scan or a new part (no private memo); R15.4 the native width depends on (horizontal dpi, pixel width) and the height on (vertical dpi, pixel height), by component-wise dependency analysis. NOT decided: byte equality at run time, DPI normalisation and scaling arithmetic, "
+             "from_blob -> __init__ -> part. Also: the part returned by get_or_add_* originates only from the package-wide scan or a new part (no private memo); R15.4 the native width depends on (horizontal dpi, pixel width) and the height on (vertical dpi, pixel height), by component-wise dependency analysis; R15.5 a caller's stream is rewound before it is read. NOT decided: byte equality at run time, DPI normalisation and scaling arithmetic, "
              "Pillow's own format detection.",
         technique="static analysis: constant folding and chaining of the format/extension/content-type/registry tables, "
                   "lookup-dominates-create check, who-may-construct rule, transitive field-read dependency analysis, "
